@@ -9,11 +9,21 @@
 (* expectations are computed with the operators of Purge.tla.                 *)
 EXTENDS MC_Purge, Json, IOUtils
 
-CONSTANTS OutFile, Sample
+CONSTANTS OutFile, Sample, Late   \* Late: only the scenarios with an index of more than ten chunks (resume / extension)
 VARIABLES case, stage
 
+\* the generator's universe: the four bundles of the bounded model plus one larger bundle (six more files,
+\* twelve more keys) so that an index can have more than ten chunks (chunk names are not zero padded)
+GFiles == {"f1", "f2", "f3", "f4", "f5", "f6", "f7", "f8", "f9"}
+GRootOf == [f \in GFiles |-> IF f \in {"f1", "f2", "f3"} THEN MCRootOf[f]
+                              ELSE CASE f = "f4" -> "r4" [] f = "f5" -> "r5" [] f = "f6" -> "r6" [] f = "f7" -> "r7" [] f = "f8" -> "r8" [] OTHER -> "r9"]
+GLeavesOf == [f \in GFiles |-> IF f \in {"f1", "f2", "f3"} THEN MCLeavesOf[f]
+                                ELSE CASE f = "f4" -> {"l4"} [] f = "f5" -> {"l5"} [] f = "f6" -> {"l6"} [] f = "f7" -> {"l7"} [] f = "f8" -> {"l8"} [] OTHER -> {"l9"}]
+GBundleDefs == [b \in {"b1", "b2", "b3", "b4", "b5"} |->
+                  IF b = "b5" THEN {"f4", "f5", "f6", "f7", "f8", "f9"} ELSE MCBundleDefs[b]]
+
 \* histories before the build: sequences of distinct valid steps
-PreSteps == {[op |-> "up", b |-> b] : b \in Bundles} \cup {[op |-> "del", b |-> b] : b \in Bundles}
+PreSteps == {[op |-> "up", b |-> b] : b \in Bundles} \cup {[op |-> "del", b |-> b] : b \in Bundles \ {"b5"}}
 RECURSIVE ValidPre(_, _)
 ValidPre(seq, vis) ==
   IF seq = <<>> THEN TRUE
@@ -28,11 +38,11 @@ RECURSIVE EverUp(_)
 EverUp(seq) == IF seq = <<>> THEN {} ELSE (IF Head(seq).op = "up" THEN {Head(seq).b} ELSE {}) \cup EverUp(Tail(seq))
 
 Pres == {s \in UNION {[1..n -> PreSteps] : n \in 1..3} : ValidPre(s, {})}
-Crashes == {99, 0, 1, 2}          \* 99: no crash; k: the build dies once k chunks are stored
+Crashes == {99, 0, 1, 2, 10, 12}          \* 99: no crash; k: the build dies once k chunks are stored
 BuildFaults == {"none", "chunkput1", "chunkput2"}
 DeleteFaults == {"none", "attr1", "attr2", "attr3", "del1", "list1"}
 
-Mk(pre, c, crash, bf, between, df, pb) ==
+Mk(pre, c, crash, bf, between, df, pb, inc) ==
   LET vis0 == VisAfter(pre, {})
       blobs0 == UNION {KeysOf(b) : b \in EverUp(pre)}
       index == UNION {KeysOf(b) : b \in vis0}
@@ -47,6 +57,8 @@ Mk(pre, c, crash, bf, between, df, pb) ==
       \* blobs re-used by an upload that started after the index must survive: the reference deletes
       \* refDeleted minus what later uploads need (with refresh-on-dedup); needed = keys of protected bundles
       needed |-> UNION {KeysOf(b) : b \in visEnd},
+      \* incremental: after the uploads in between, the (complete) index is extended by a resumed build
+      incremental |-> inc, index2 |-> UNION {KeysOf(b) : b \in visEnd},
       exact |-> crash = 99 /\ bf = "none" /\ df = "none"]
 
 GInit == case = [none |-> TRUE] /\ stage = "pick" /\ Init
@@ -56,13 +68,19 @@ Pick ==
   /\ IF Sample
        THEN \E pre \in {R(Pres)}, c \in {R(ChunkSizes)}, crash \in {R(Crashes)}, bf \in {R(BuildFaults)},
                bw \in {R(SUBSET Bundles)}, df \in {R(DeleteFaults)} :
-              \E pb \in {R(0..Len(pre))} :
-              case' = Mk(pre, c, crash, IF crash = 99 THEN bf ELSE "none", bw, df, pb)
+              \E pb \in {R(0..Len(pre))}, inc \in {R(BOOLEAN)} :
+              case' = Mk(pre, c, crash, IF crash = 99 THEN bf ELSE "none", bw, df, pb,
+                         inc /\ crash = 99 /\ bf = "none" /\ df = "none")
+       ELSE IF Late
+       THEN \E pre \in {p \in Pres : \E i \in DOMAIN p : p[i] = [op |-> "up", b |-> "b5"]} :
+              \E crash \in {99, 10, 12}, bw \in {{b} : b \in Bundles \ {"b5"}} :
+                case' = Mk(pre, 1, crash, "none", bw, "none", 0, crash = 99)
        ELSE \E pre \in Pres, c \in ChunkSizes, crash \in Crashes, bw \in {{}} \cup {{b} : b \in Bundles} :
               \E f \in {"none"} \cup (IF crash = 99 THEN {"chunkput1", "attr1", "attr2", "del1"} ELSE {}) :
                 \E pb \in (IF crash = 99 /\ f = "none" THEN 0..Len(pre) ELSE {0}) :
+                \E inc \in (IF crash = 99 /\ f = "none" /\ pb = 0 /\ bw # {} THEN BOOLEAN ELSE {FALSE}) :
                 case' = Mk(pre, c, crash, IF f = "chunkput1" THEN f ELSE "none", bw,
-                           IF f \in {"attr1", "attr2", "del1"} THEN f ELSE "none", pb)
+                           IF f \in {"attr1", "attr2", "del1"} THEN f ELSE "none", pb, inc)
   /\ stage' = "done"
   /\ UNCHANGED pvars
 
